@@ -402,8 +402,12 @@ impl PtraceDumper {
         let end = Instant::now().checked_add(timeout);
 
         loop {
-            if let Ok(ProcState::Stopped) = Stat::from_file(&proc_file)?.state() {
-                return Ok(());
+            match Stat::from_file(&proc_file)?.state() {
+                Ok(ProcState::Stopped) => return Ok(()),
+                // The initial thread has exited: the state shown for the process is that of a
+                // zombie and stays so. The process has stopped when its other threads have.
+                Ok(ProcState::Zombie) if self.remaining_threads_stopped() => return Ok(()),
+                _ => {}
             }
 
             std::thread::sleep(POLL_INTERVAL);
@@ -411,6 +415,22 @@ impl PtraceDumper {
                 return Err(StopProcessError::Timeout);
             }
         }
+    }
+
+    /// Whether every thread of the process that has not exited is stopped (and there is one).
+    fn remaining_threads_stopped(&self) -> bool {
+        let Ok(tasks) = std::fs::read_dir(format!("/proc/{}/task", self.pid)) else {
+            return false;
+        };
+        let mut stopped = 0;
+        for task in tasks.flatten() {
+            match Stat::from_file(task.path().join("stat")).map(|stat| stat.state()) {
+                Ok(Ok(ProcState::Stopped)) => stopped += 1,
+                Ok(Ok(ProcState::Zombie)) => {}
+                _ => return false,
+            }
+        }
+        stopped > 0
     }
 
     /// Send SIGCONT to the process to continue.
